@@ -212,6 +212,13 @@ def install(equivariant=True):
         D = S.D
         pl = sym.concrete_int(self.patch_len)
 
+        # pre-condition of the pooling contract (C08): the maximum is taken over the pixel NORM; the signed-value comparison
+        # (use_norm=False) is only equivariant for true scalars -- a pseudo-scalar changes sign under reflections
+        if not self.use_norm:
+            bad = [k for k in x.keys() if tuple(k) != (0, 0)]
+            if bad and equivariant:
+                S.problems.append(("pre", f"MaxNormPool(use_norm=False) applied to blocks of type {bad}: signed-value max pooling is not equivariant for them"))
+
         def make_out():
             first = next(iter(x.values()))
             outsp = []
